@@ -16,6 +16,8 @@ SUBSCRIBE = 'observable::Observable::actual_subscribe'
 SCHEDULE = 'scheduler::Scheduler::schedule'
 UNSUB = 'subscription::Subscription::unsubscribe'
 IS_CLOSED = 'subscription::Subscription::is_closed'
+UNSUB_NAMES = {UNSUB, 'subscription::BoxSubscriptionInner::boxed_unsubscribe', 'subscriber::Publisher::p_unsubscribe'}
+IS_CLOSED_NAMES = {IS_CLOSED, 'subscription::BoxSubscriptionInner::boxed_is_closed', 'subscriber::Publisher::p_is_closed'}
 TAKE = {'std::option::Option::take', 'std::mem::take', 'std::mem::replace'}
 FN_CALLS = ('std::ops::FnOnce::call_once', 'std::ops::FnMut::call_mut', 'std::ops::Fn::call')
 
